@@ -614,6 +614,18 @@ func main() {
 
 		fname := fmt.Sprintf("f%d.bin", id)
 		df := storage.NewFactoryDisk(diskDir)
+		if id%4 == 2 {
+			// a file of that name is already there (a name used again, or left behind by an earlier muxer on the
+			// directory): NewFile starts from an empty file all the same
+			old := make([]byte, 1<<16)
+			for k := range old {
+				old[k] = byte(0xA5 ^ k)
+			}
+			if err := os.WriteFile(filepath.Join(diskDir, fname), old, 0o644); err != nil {
+				panic(err)
+			}
+			dist["disk-name-reused"]++
+		}
 		fd, err := df.NewFile(fname)
 		if err != nil {
 			panic(err)
